@@ -23,6 +23,7 @@ class WireFam(Family):
         prevb, prevqc, v = "G", "genesis", 0
         blocks = []
         qcs = ["genesis"]
+        twins = []
         for k in range(1, rng.randrange(2, 5)):
             if v >= 2**64 - 1:
                 break   # block views strictly increase (two certified blocks of one view never exist honestly)
@@ -45,6 +46,13 @@ class WireFam(Family):
                 L.append(f"qc Q{k} sig=p{k}_{signers[0]} view={v} hash={b}")
             L.append(f"rt qc Q{k} at={R()}")
             qcs.append(f"Q{k}")
+            if len(signers) >= 3 and rng.random() < 0.6:
+                # a second certificate for the SAME block from other votes: two replicas may attest different QCs of one
+                # block in one aggregate QC, and each must come back as it was sent (C12-r6m1)
+                L.append(f"create-qc {R()} Q{k}x {b} " + " ".join(f"p{k}_{i}" for i in signers[1:]))
+                L.append(f"rt qc Q{k}x at={R()}")
+                qcs.append(f"Q{k}x")
+                twins.append((f"Q{k}", f"Q{k}x"))
             L.append(f"rt block {b}")
             L.append(f"rt prop {b} from={p}")
             if rng.random() < 0.4:
@@ -60,6 +68,9 @@ class WireFam(Family):
         rng.shuffle(ids)
         use = ids[:rng.choice([1, q, n])]
         att = {i: rng.choice(qcs) for i in use}
+        if twins and len(use) >= 2:
+            a, b2 = rng.choice(twins)
+            att[use[0]], att[use[1]] = a, b2
         for i in use:
             L.append(f"sign {i} view:{tv} v{i}")
             L.append(f"sign {i} tmo:{i}:{tv}:{att[i]} m{i}")
